@@ -514,7 +514,7 @@ fn budgets(tier: &str, scale: f64, nsys: usize) -> Vec<(Class, u64, usize, usize
     // (class, cases, max transition points probed per zone, sparse probes)
     let s = |n: u64| ((n as f64 * scale) as u64).max(1);
     if tier == "thorough" {
-        vec![(Class::Sys, nsys as u64, 100_000, 2_000), (Class::Synth, s(300_000), 400, 200), (Class::Rule, s(300_000), 400, 200)]
+        vec![(Class::Sys, nsys as u64, 100_000, 2_000), (Class::Synth, s(1_200_000), 400, 200), (Class::Rule, s(1_200_000), 400, 200)]
     } else {
         vec![(Class::Sys, nsys as u64, 60, 100), (Class::Synth, s(6_000), 80, 60), (Class::Rule, s(6_000), 80, 60)]
     }
